@@ -49,22 +49,9 @@ Definition code_ok (r : code_row) : bool :=
 
 Definition all_codes : list code_row := spec_codes ++ spec_uncoded.
 
-Definition is_date_and_time (r : code_row) : bool := let '(code, _, _, _) := r in code =? 0xCF.
-
-(* every documented code maps to a class of the documented width — except DATE_AND_TIME (0xCF),
-   whose class declares size 8 while CIP (and the class's own codec) use 6 bytes *)
-Lemma type_codes_guarded : forallb (fun r => is_date_and_time r || code_ok r) all_codes = true.
+(* every documented code maps to a class of the documented width and layout *)
+Lemma type_codes_all : forallb code_ok all_codes = true.
 Proof. vm_compute. reflexivity. Qed.
-
-Lemma type_codes_date_and_time :
-  existsb (fun r => is_date_and_time r && negb (code_ok r)) all_codes = true.
-Proof. vm_compute. reflexivity. Qed.
-
-(* what the library declares for 0xCF, and what its codec does *)
-Lemma date_and_time_row :
-  option_map row_size (find_row type_rows (zs_of_string "DATE_AND_TIME")) = Some 8
-  /\ sfixed TDateTime = Some 6%nat.
-Proof. split; reflexivity. Qed.
 
 Lemma named_int_encode_UDINT z bs :
   spec_int 4 false z = Some bs -> named_int_encode n_UDINT (VInt z) = Ok bs.
@@ -76,7 +63,7 @@ Theorem datetime_args_is_spec a b bs :
 Proof.
   cbn [spec_encode]. unfold spec_datetime_enc.
   destruct (spec_int 4 false a) as [pa|] eqn:Ha; [|discriminate].
-  destruct (spec_int 2 false b) as [pb|] eqn:Hb; [|discriminate]. intros H. injection H as <-.
-  cbn [encode_args]. unfold datetime_encode2.
+  destruct (spec_int 2 false b) as [pb|] eqn:Hb; [|discriminate]. intros H. apply Some_inj in H. subst bs.
+  cbn [encode_args]. unfold datetime_encode2. cbn [bind fst snd].
   rewrite (named_int_encode_UDINT _ _ Ha). cbn [bind]. rewrite (named_int_encode_UINT _ _ Hb). reflexivity.
 Qed.
